@@ -87,10 +87,12 @@ def run(ck):
             break
     ck.exhaustive = False
     ck.require_monitor("manifest-exactly-once", "manifest-path-resolves", "verifycap-set", "storage-index-set", "deep-stats-counts",
-                       "deep-check-once-per-object", "walker-exactly-once")
+                       "deep-check-once-per-object", "deep-check-and-repair-once-per-object", "walker-exactly-once")
     ck.require_reach("shared-subdirectory", "shared-file", "same-object-via-write-and-read-cap", "cycle-to-root-via-readcap",
                      "self-loop", "cycle-to-ancestor", "literal-file-linked-twice", "literal-directory-linked-twice", "unknown-node",
-                     "immutable-directory", "mdmf-directory", "unreachable-object", "root-opened-via-readcap", "depth>=3")
+                     "immutable-directory", "mdmf-directory", "unreachable-object", "root-opened-via-readcap", "depth>=3",
+                     "read-cap-link-sorts-before-write-cap-link", "write-cap-link-sorts-before-read-cap-link", "empty-literal-file",
+                     "empty-literal-file-linked-twice", "deep-check-with-verify")
 
 
 def one_case(ck, g, rng, caseno):
@@ -125,6 +127,17 @@ def one_case(ck, g, rng, caseno):
         o = GObj(kind, node.get_uri(), node, size=len(data))
         files.append(o)
         objs.append(o)
+    if rng.random() < .8:
+        # the empty file: a literal cap with no data at all (size 0)
+        o = GObj("lit", D.LIT_EMPTY, c.create_node_from_uri(D.LIT_EMPTY), size=0)
+        files.append(o)
+        objs.append(o)
+        if rng.random() < .4:
+            node, data = D.make_file(g, c, rng, "ssk", tag())     # ... and a mutable file whose current contents are empty
+            D.ok(g, node.overwrite(__import__("allmydata.mutable.publish", fromlist=["MutableData"]).MutableData(b"")), "truncate")
+            o = GObj("ssk", node.get_uri(), node, size=0)
+            files.append(o)
+            objs.append(o)
     unknowns = []
     for k in range(rng.choice([0, 1, 2, 3])):
         t = tag()
@@ -214,6 +227,35 @@ def one_case(ck, g, rng, caseno):
             p = rng.choice(order)
             add_edge(p, lf)
             add_edge(p, lf)
+    view_pairs = []
+    if shape in ("dag", "cyclic"):
+        # the SAME mutable object linked twice from ONE directory, once by read-cap and once by write-cap, under names whose
+        # order decides which link the walk meets first (children are processed in name order)
+        for _ in range(rng.randint(1, 2)):
+            dedicated = None
+            if total <= 30:
+                ver = rng.choice([D.SDMF, D.MDMF])
+                vnode = D.ok(g, c.create_dirnode(version=ver), "create_dirnode")
+                vd = GObj("dir-mdmf" if ver == D.MDMF else "dir-sdmf", vnode.get_uri(), vnode)
+                fnode, fdata = D.make_file(g, c, rng, rng.choice(["ssk", "mdmf"]), tag())
+                vf = GObj("ssk" if fnode.get_uri().startswith(b"URI:SSK") else "mdmf", fnode.get_uri(), fnode, size=len(fdata))
+                objs.extend([vd, vf])
+                mdirs.append(vd)
+                files.append(vf)
+                edges[id(vd)]["inner"] = (vf, "rw")
+                depth_of[id(vd)] = 1
+                t_ = rng.choice([vd, vd, vf])
+                dedicated = vd
+            else:
+                t_ = rng.choice([o for o in order[1:] + files if o.info is not None and o.info.is_write] or [root])
+            parent = root if rng.random() < .6 else rng.choice(order)
+            ro_first = rng.random() < .5
+            tg = tag().decode()
+            add_edge(parent, t_, name=("a_view%s" if ro_first else "z_view%s") % tg, link="ro")
+            add_edge(parent, t_, name=("z_work%s" if ro_first else "a_work%s") % tg, link="rw")
+            view_pairs.append(ro_first)
+            if dedicated is not None and t_ is not dedicated:
+                add_edge(parent, dedicated, name="holder%s" % tg, link="rw")     # keep the dedicated directory reachable
     if shape == "cyclic":
         deep = max(order, key=lambda o: depth_of[id(o)])
         add_edge(deep, root, link="ro")                       # loop back to the root through its READ cap
@@ -330,6 +372,12 @@ def one_case(ck, g, rng, caseno):
         ck.hit("same-object-via-write-and-read-cap")
     if maxdepth[0] >= 3:
         ck.hit("depth>=3")
+    for rf in view_pairs:
+        ck.hit("read-cap-link-sorts-before-write-cap-link" if rf else "write-cap-link-sorts-before-read-cap-link")
+    if any(o.size == 0 and o.kind == "lit" and inlinks[id(o)] for o in objs):
+        ck.hit("empty-literal-file")
+    if any(o.size == 0 and o.kind == "lit" and inlinks[id(o)] >= 2 for o in objs):
+        ck.hit("empty-literal-file-linked-twice")
 
     sig = (shape, tuple(sorted(collections.Counter(o.kind for o in objs).items())),
            tuple(sorted((d_.kind, tuple(sorted((n_, t_.kind, l_) for n_, (t_, l_) in d_.children.items()))) for d_ in mdirs)))
@@ -448,20 +496,49 @@ def one_case(ck, g, rng, caseno):
     st2 = D.ok(g, rootnode.start_deep_stats().when_done(), "start_deep_stats")
     judge_stats("start_deep_stats", st2)
 
-    # (3) deep-check
-    dc = D.ok(g, rootnode.start_deep_check(verify=False).when_done(), "start_deep_check")
-    ck.mon("deep-check-once-per-object")
-    cnt = dc.get_counters()
-    allres = dc.get_all_results()
-    if cnt["count-objects-checked"] != len(reachable_ids) or len(allres) != len(reachable_ids):
-        ck.violation("deep-check-object-count-differs", "deep-check checked %d objects (%d result paths), %d distinct objects are reachable" % (
-            cnt["count-objects-checked"], len(allres), len(reachable_ids)), desc)
-    sis = collections.Counter(r.get_storage_index() for r in allres.values())
-    if set(D.b32(s_) for s_ in sis) != want_si:
-        ck.violation("storage-index-set-differs", "deep-check results cover %d storage indexes, model %d" % (len(sis), len(want_si)), desc)
-    if cnt["count-objects-healthy"] != cnt["count-objects-checked"]:
-        ck.observe("deep-check-unhealthy-object-on-honest-grid")
-    judge_stats("deep-check stats", dc.get_stats())
+    # (3) deep-check and deep-check-and-repair (verify on / off): each reachable object exactly once in each walk.
+    #     Health verdicts are NOT judged (a read-only mutable node cannot be repaired and reports so).
+    def judge_deep_check(label, results, monitor_name):
+        ck.mon(monitor_name)
+        cnt = results.get_counters()
+        allres = results.get_all_results()
+        w = dict(desc, walk=label)
+        if cnt["count-objects-checked"] != len(reachable_ids) or len(allres) != len(reachable_ids):
+            ck.violation("deep-check-object-count-differs", "%s checked %d objects (%d result paths), %d distinct objects are reachable" % (
+                label, cnt["count-objects-checked"], len(allres), len(reachable_ids)), w)
+        sis = set(D.b32(r.get_storage_index()) for r in allres.values())
+        if sis != want_si:
+            ck.violation("storage-index-set-differs", "%s results cover %d storage indexes, model %d (missing %d)" % (
+                label, len(sis), len(want_si), len(want_si - sis)), w)
+        ids = collections.Counter()
+        for path in allres:
+            mo = model_resolve(path)
+            if mo is None or mo.identity is None:
+                ck.violation("manifest-path-does-not-lead-to-its-object", "%s has a result for path %r where the model has %s" % (
+                    label, path, mo.kind if mo else "nothing"), w)
+                continue
+            ids[mo.identity] += 1
+            if mo.info.si != allres[path].get_storage_index():
+                ck.violation("manifest-path-does-not-lead-to-its-object", "%s: result at %r is for another storage index" % (label, path), w)
+        miss = reachable_ids - set(ids)
+        if miss:
+            m0 = sorted(miss)[0]
+            ck.violation("reachable-object-not-visited", "%s has no result for %d reachable objects, e.g. %s %r" % (
+                label, len(miss), seen[m0].kind, D.show(m0)[:60]), w)
+        if any(v > 1 for v in ids.values()):
+            ck.violation("object-visited-more-than-once", "%s has two result paths for one object" % label, w)
+        if "count-objects-healthy" in cnt and cnt["count-objects-healthy"] != cnt["count-objects-checked"]:
+            ck.observe("deep-check-unhealthy-object-on-honest-grid")
+        judge_stats(label + " stats", results.get_stats())
+
+    v1 = rng.random() < .3
+    dc = D.ok(g, rootnode.start_deep_check(verify=v1).when_done(), "start_deep_check")
+    judge_deep_check("deep-check(verify=%s)" % v1, dc, "deep-check-once-per-object")
+    v2 = rng.random() < .3
+    dr = D.ok(g, rootnode.start_deep_check_and_repair(verify=v2).when_done(), "start_deep_check_and_repair")
+    judge_deep_check("deep-check-and-repair(verify=%s)" % v2, dr, "deep-check-and-repair-once-per-object")
+    if v1 or v2:
+        ck.hit("deep-check-with-verify")
 
     # (4) recording walker through deep_traverse
     class Recorder(object):
